@@ -83,7 +83,12 @@ func kindOfSyscall(s sysLine) string {
 	case "mkdir", "mkdirat":
 		return "mkdir"
 	case "unlink", "unlinkat":
+		if strings.Contains(s.text, "AT_REMOVEDIR") {
+			return "rmdir"
+		}
 		return "unlink"
+	case "rmdir":
+		return "rmdir"
 	}
 	return "" // read-only / irrelevant
 }
@@ -95,7 +100,7 @@ func kindOfModelOp(op string) string {
 	}
 	k := opKind(f[0])
 	switch k {
-	case "creat", "write", "close", "renameat2", "mkdir", "unlink":
+	case "creat", "write", "close", "renameat2", "mkdir", "unlink", "rmdir":
 		return k
 	case "open", "opendir":
 		return "open"
